@@ -35,7 +35,17 @@ def check(ctx):
     blocks = [n for n in own_nodes(fn) if isinstance(n, ast.If) and norm(n.test) in ("options.adaptive", "self.options.adaptive")
               and not any(isinstance(g, (ast.For, ast.While)) for g, _ in guards_of(fn, n, pm))]
     if len(blocks) != 1:
-        raise AnalysisError(f"expected one top-level `if options.adaptive:` block in update, found {len(blocks)}")
+        # the rule block is not under `if options.adaptive`: judge where the tentative step is assigned instead
+        stores = [n for n in own_nodes(fn) if isinstance(n, ast.Assign) and any(norm(t) == "self.tentative_dt" for t in n.targets)]
+        if not stores:
+            raise AnalysisError("update() no longer assigns self.tentative_dt")
+        st = stores[0]
+        g = [("" if br == "true" else "not ") + norm(x.test) for x, br in guards_of(fn, st, pm) if isinstance(x, ast.If)]
+        ctx.ob("R12.2", "the adaptive rule runs only under `options.adaptive`", False, detail={"guards": g}, where=fu.fq,
+               construct="self.tentative_dt assignment guard", loc=loc(fu, st),
+               message=f"`{norm(st)[:60]}` is executed under {g}, not under `options.adaptive`",
+               consequence="with adaptive=False the time step changes from dt_init")
+        return
     blk = blocks[0]
     T = AtomTable()
     ip = Interp(repo, T)
